@@ -84,8 +84,20 @@ def laplacians(name):
             tag = " [%s Laplacian on %s, %s]" % (which, name, "cotan" if cotan else "uniform")
             E = [tuple(int(x) for x in e) for e in mesh.edges]
             he = oracle.half_edges(faces)
+            # an operator assembled earlier on the same mesh object must not change the answer
+            earlier = ["none", "vertices", "edges", "triangles"][sx.choice("assembled_before", 4)]
+            if earlier != "none":
+                tag = tag[:-1] + ", after assembling the %s Laplacian on the same mesh]" % earlier
             with _stubs(sx, L):
                 try:
+                    if earlier == "vertices":
+                        L.laplacian(mesh, cotan=cotan)
+                    elif earlier == "edges":
+                        L.laplacian_edges(mesh, cotan=cotan)
+                    elif earlier == "triangles" and not cotan:
+                        L.laplacian_triangles(mesh, cotan=cotan)
+                    elif earlier == "triangles":
+                        sx.assume(False)        # (needs the clamp assumption below; covered as the main operator)
                     if which == "vertices":
                         mat = L.laplacian(mesh, cotan=cotan)
                     elif which == "edges":
@@ -108,6 +120,9 @@ def laplacians(name):
                     return
             shape, e = _entries(mat)
             _sym_checks(sx, shape, e, tag)
+            if cotan:
+                for c in range(nc):
+                    sx.check_eq(a[c], C[c], "assembling an operator leaves the mesh's cotangent attribute unchanged" + tag, tol=1e-12)
             if which == "vertices":
                 # independently assembled stiffness matrix: K_ij = -1/2 * sum of cotangents opposite to edge (i,j)
                 sx.check(shape[0] == V, "vertex Laplacian has one row per vertex" + tag)
